@@ -374,6 +374,31 @@ neutral("c01-ziplongest-counts-active-up", ["C01", "C05", "C20"], "itertools.py"
         "        remaining = len(async_iters)\n        while True:\n            values: list[Any] = []\n            for index, aiterator in enumerate(async_iters):\n                try:\n                    value = await anext(aiterator)\n                except StopAsyncIteration:\n                    remaining -= 1\n                    if not remaining:\n                        return\n",
         "        exhausted = 0\n        while True:\n            values: list[Any] = []\n            for index, aiterator in enumerate(async_iters):\n                try:\n                    value = await anext(aiterator)\n                except StopAsyncIteration:\n                    exhausted += 1\n                    if exhausted == len(async_iters):\n                        return\n")
 
+mutant("c01-compress-keeps-falsy-selectors", "C01", "itertools.py",
+       "            if keep:\n                yield item", "            if keep is not None:\n                yield item", rule="R01.12")
+mutant("c01-batched-strict-off-by-one", "C01", "itertools.py",
+       "                if strict and len(batch) < n:", "                if strict and len(batch) < n - 1:", rule="R01.12")
+mutant("c05-pairwise-skips-ahead", "C05", "itertools.py",
+       "            yield prev, current  # type: ignore\n            prev = current",
+       "            yield prev, current  # type: ignore\n            prev = await anext(async_iter, current)", rule="R05.11")
+mutant("c05-dropwhile-keeps-asking", "C05", "itertools.py",
+       "                yield item\n                break\n        async for item in async_iter:\n            yield item",
+       "                yield item\n                break\n        async for item in async_iter:\n            await predicate(item)\n            yield item", rule="R05.11")
+neutral("c01-takewhile-explicit-anext", ["C01", "C05", "C03", "C04", "C06", "C18", "C20"], "itertools.py",
+        "        async for item in async_iter:\n            if await predicate(item):\n                yield item\n            else:\n                break\n",
+        "        while True:\n            try:\n                item = await anext(async_iter)\n            except StopAsyncIteration:\n                break\n            if not await predicate(item):\n                break\n            yield item\n")
+
+mutant("c02-sum-operand-order", "C02", "builtins.py",
+       "            total = total + item", "            total = item + total", rule="R02.8")
+mutant("c02-reduce-argument-order", "C02", "functools.py",
+       "            value = await function(value, head)", "            value = await function(head, value)", rule="R02.8")
+mutant("c02-any-ignores-first", "C02", "builtins.py",
+       "        async for element in item_iter:\n            if element:\n                return True\n    return False",
+       "        await anext(item_iter, None)\n        async for element in item_iter:\n            if element:\n                return True\n    return False",
+       rule="R02.8")
+neutral("c02-any-return-inside-scope", ["C02", "C04", "C05", "C18"], "builtins.py",
+        "            if element:\n                return True\n    return False", "            if element:\n                return True\n        return False")
+
 # --------------------------------------------------------------------------- C13
 mutant("c13-handlers-reordered", "C13", "contextlib.py",
        "            except StopAsyncIteration as exc:\n                return exc is not exc_tb\n            except RuntimeError as exc:\n                if exc is exc_val:\n                    return False\n                # Handle promotion of unhandled Stop[Async]Iteration to RuntimeError\n                if isinstance(exc_val, (StopIteration, StopAsyncIteration)):\n                    if exc.__cause__ is exc_val:\n                        return False\n                raise\n            except exc_type as exc:\n                if exc is not exc_val:\n                    raise\n                return False\n",
